@@ -140,12 +140,25 @@ let run_avl (c : case) =
   let s0, sp0 =
     match kv c.header "raw" with
     | Some raw ->
-      (match decode wb lay (bytes_of_hex raw) with
-       | Some s -> s, None
+      let bytes = bytes_of_hex raw in
+      (match decode wb lay bytes with
+       | Some s ->
+         (* the reference starts from what the independent reader finds in the raw state, when that state is a
+            well-formed search tree (spec=1 in the header asks for it: it costs a walk over all records) *)
+         let sp = if kv c.header "spec" = None then None else
+             (match decode_doc wb lay bytes with
+              | Some d when d.d_wf && d.d_bst && d.d_bal ->
+                Some { scap = s.cap; sents = List.map (fun x -> (snd (fst x), snd x)) (d_inorder d.d_tree);
+                       snrec = n_of_int (List.length s.nodes) }
+              | _ -> None) in
+         s, sp
        | None -> failwith "raw bytes do not decode")
     | None ->
       let cap = n_of_int (kvn c.header "cap") and nrec = n_of_int (kvn c.header "nrec") in
       init_c cap nrec, Some { scap = cap; sents = []; snrec = nrec } in
+  let lite = kv c.header "lite" <> None in
+  let fnv bs = if lite then "-" else fnv bs in
+  let encode wb lay s = if lite then [] else encode wb lay s in
   let uni = sort_uniq_z (List.filter_map (fun t ->
       match t with
       | ("ins" | "rem" | "get" | "gmut" | "gmut0" | "has") :: k :: _ -> Some (z_of_string k)
